@@ -4,6 +4,18 @@ for ln in open('/verif/properties.jsonl'):
     p=json.loads(ln)
     if p['id']==pid: break
 wt='/tmp/seed-'+pid.lower()
+# round 2+: optional second argument "r2" -> other worktree name and a list of changes that already exist (titles only)
+import glob,os
+taken=''
+if len(sys.argv)>2:
+    wt='/tmp/seed-'+pid.lower()+'-'+sys.argv[2]
+    titles=[]
+    for m in sorted(glob.glob('/verif/seeded/'+pid.lower()+'-*/meta.json')):
+        try:
+            d=json.load(open(m)); titles.append('  - '+os.path.basename(os.path.dirname(m))+': '+str(d.get('title',''))[:200]+' [needs: '+str(d.get('needs_to_manifest',''))[:160]+']')
+        except Exception: pass
+    if titles:
+        taken='\nOther developers have ALREADY delivered the following changes for this property. Produce DIFFERENT ones: other code sites, other mechanisms, other clauses of the statement where possible (prefer clauses not touched below):\n'+'\n'.join(titles)+'\n'
 print(f"""You are given a Go repository (nuts-node: a decentralized-identity server) as a git worktree at {wt}. Work ONLY inside {wt}. Do NOT read, list or touch /verif or /repo (other people's work; looking there would invalidate this exercise). Environment for every shell call: `export GOFLAGS=-mod=mod GOPROXY=off GOSUMDB=off GOTOOLCHAIN=local` (no network; Go 1.23). Do not run `go mod tidy`; if go.sum gets modified, `git checkout go.sum`. The machine is shared and busy: run only the tests of the packages you touch, not the whole suite.
 
 A semantic property of this code base that users rely on:
@@ -16,13 +28,14 @@ A semantic property of this code base that users rely on:
 
 (Ignore `verifhook.Point(...)`/`verifhook.Fault(...)` calls and files with `//go:build verif`: inert instrumentation, not part of the product. Do not use or modify them.)
 
+{taken}
 Your task: play the role of a developer who introduces a realistic, plausible-looking bug. Produce TWO different changes (different mechanisms, different code sites) to nuts-node, each of which BREAKS this property while
   (a) the code still compiles (`go build ./...` of the touched packages and `go vet` of them),
   (b) the EXISTING tests of every package you touch still pass, unedited (`go test -count=1 ./<pkg>/...`) — you may not modify, delete or skip tests,
   (c) it needs something SPECIFIC to manifest: a particular interleaving, a crash or fault at a particular point, a multi-step sequence of operations, an unusual input, or two cooperating sites that each look fine alone. NOT something ordinary use would expose at once, and not a change that makes the feature obviously dead.
 Prefer changes a code reviewer could wave through (an off-by-one, a dropped re-check, a condition narrowed or widened, a lock released early, a wrong variable, an error swallowed, an optimisation that skips a step in a rare case). Keep each change small (1–15 lines).
 
-For each change i ∈ {{1,2}} deliver in {wt}/SEED/{pid.lower()}-<short-name>/ :
+For each change i ∈ {{1,2}} deliver in {wt}/SEED/{pid.lower()}-<short-name>/ (use short names different from the ones listed above) :
   - `patch.diff`: `git diff` output (-p1 relative to the repository root) of the change only;
   - a DEMONSTRATION: a Go test file `demo_test.go` (say in which package directory it must be placed) or a small program, that FAILS with the change applied and PASSES without it — actually run it both ways and record the outputs;
   - `meta.json`: {{"property": "{pid}", "title": "<one line>", "what_it_breaks": "<which clause of the statement>", "needs_to_manifest": "<the specific input/interleaving/fault/sequence>", "packages_touched": [...], "commands_run": [...], "existing_tests_pass": true, "demo_fails_with_patch": true, "demo_passes_without_patch": true}}.
